@@ -22,6 +22,11 @@ type ClusterCountResult struct {
 	ChunkIncluded int64
 }
 
+// maxJournalLineSize bounds the length of one journal line. A dense sketch
+// (2^18 one-byte registers) is about 350 KB once base64-encoded into JSON,
+// well above bufio.Scanner's default limit of 64 KiB.
+const maxJournalLineSize = 1 << 20
+
 func (c ClusterCounter) Count(reader io.Reader) (*ClusterCountResult, error) {
 	result := ClusterCountResult{}
 	counter, err := hyperloglog.NewPlus(18)
@@ -29,6 +34,7 @@ func (c ClusterCounter) Count(reader io.Reader) (*ClusterCountResult, error) {
 		return nil, err
 	}
 	inputScanner := bufio.NewScanner(reader)
+	inputScanner.Buffer(make([]byte, 0, bufio.MaxScanTokenSize), maxJournalLineSize)
 	for inputScanner.Scan() {
 		inputLine := inputScanner.Bytes()
 		sinkInfo := SinkEntry{}
@@ -54,6 +60,9 @@ func (c ClusterCounter) Count(reader io.Reader) (*ClusterCountResult, error) {
 		if err != nil {
 			return nil, err
 		}
+	}
+	if err := inputScanner.Err(); err != nil {
+		return nil, err
 	}
 	result.Sum = counter.Count()
 	return &result, nil
